@@ -45,6 +45,24 @@ func c09Round(c *mon.Ctx, r *mon.Rand) {
 		rootTags = map[string]string{"kid": "parent", "rt": "x"}
 		opts.Tags = map[string]string{"kid": "parent", "rt": "x"}
 	}
+	// a third of the rounds: a sanitizer that rewrites the tag value every
+	// goroutine passes (all of them spell it the same way, "k.1" for "k_1"), so
+	// that the scope is registered under a raw and a sanitized key
+	withSan := r.Chance(1, 3)
+	kidVal := func(k int) (raw, clean string) {
+		if withSan {
+			return fmt.Sprintf("k.%d", k), fmt.Sprintf("k_%d", k)
+		}
+		return fmt.Sprintf("k%d", k), fmt.Sprintf("k%d", k)
+	}
+	if withSan {
+		opts.SanitizeOptions = &tally.SanitizeOptions{
+			NameCharacters:       tally.ValidCharacters{Ranges: tally.AlphanumericRange, Characters: tally.UnderscoreDashDotCharacters},
+			KeyCharacters:        tally.ValidCharacters{Ranges: tally.AlphanumericRange, Characters: tally.UnderscoreCharacters},
+			ValueCharacters:      tally.ValidCharacters{Ranges: tally.AlphanumericRange, Characters: tally.UnderscoreCharacters},
+			ReplacementCharacter: '_',
+		}
+	}
 	if cached {
 		cr := mon.NewCachedRec(true)
 		rec = cr.Recorder
@@ -71,7 +89,7 @@ func c09Round(c *mon.Ctx, r *mon.Rand) {
 	defer inj.Uninstall()
 	root, _ := vNewRoot(opts, 0, shards)
 	existing := root.Counter("existing")
-	desc := map[string]interface{}{"cached": cached, "shards": shards, "goroutines": N, "names": nNames, "children": nKids, "root_tags": rootTags}
+	desc := map[string]interface{}{"cached": cached, "shards": shards, "goroutines": N, "names": nNames, "children": nKids, "root_tags": rootTags, "rewriting_sanitizer": withSan}
 	c.LogCase(fmt.Sprint(desc))
 	stopWatch := c.Watchdog(300*time.Second, "no-progress(deadlock?)", desc)
 	defer stopWatch()
@@ -140,7 +158,8 @@ func c09Round(c *mon.Ctx, r *mon.Rand) {
 				if k%2 == 0 {
 					s = root.SubScope(fmt.Sprintf("k%d", k))
 				} else {
-					s = root.Tagged(map[string]string{"kid": fmt.Sprintf("k%d", k)})
+					raw, _ := kidVal(k)
+					s = root.Tagged(map[string]string{"kid": raw})
 				}
 				obj := hist.ObjNum(kidIdent(k), s)
 				hist.Add(g, mon.RegIn{Ident: kidIdent(k)}, call, obj, hist.Tick())
@@ -242,7 +261,8 @@ func c09Round(c *mon.Ctx, r *mon.Rand) {
 			if k%2 == 0 {
 				name, tags = fmt.Sprintf("k%d.m%d", k, n), mon.RefOverlay(rootTags, nil)
 			} else {
-				name, tags = fmt.Sprintf("m%d", n), mon.RefOverlay(rootTags, map[string]string{"kid": fmt.Sprintf("k%d", k)})
+				_, clean := kidVal(k)
+				name, tags = fmt.Sprintf("m%d", n), mon.RefOverlay(rootTags, map[string]string{"kid": clean})
 			}
 			if len(tags) == 0 {
 				tags = nil
